@@ -159,6 +159,9 @@ func runC12(tier string, seed uint64, rep *Report) {
 		{Call("defmacro", S("m4"), Call("fn", V(S("f")), L(S("quasiquote"), L(L(S("splice-unquote"), S("f")))))), func(a, b types.MalType) types.MalType { return Call("m4", V(S("list"), a, b)) }},
 		{Call("defmacro", S("m0"), Call("fn", V(), Q(Call("trace!", Kw("nullary"))))), func(a, b types.MalType) types.MalType { return Call("m0") }},
 		{Call("defmacro", S("m5"), Call("fn", V(S("a")), Call("list", Q(S("m1")), S("a"), S("a")))), func(a, b types.MalType) types.MalType { return Call("m5", a) }},
+		// a macro VALUE that went through with-meta is still a macro; a function given metadata and then installed by defmacro is one
+		{Call("def", S("m1d"), Call("with-meta", S("m1"), types.HashMap{Val: map[string]types.MalType{Kw("doc"): "d"}})), func(a, b types.MalType) types.MalType { return Call("m1d", a, b) }},
+		{Call("defmacro", S("m6"), Call("with-meta", Call("fn", V(S("a"), S("b")), L(S("quasiquote"), L(S("if"), L(S("unquote"), S("a")), L(S("unquote"), S("b")), Kw("no")))), types.HashMap{Val: map[string]types.MalType{Kw("k"): 1}})), func(a, b types.MalType) types.MalType { return Call("m6", a, b) }},
 		{nil, func(a, b types.MalType) types.MalType { return Call("cond", a, b, Kw("else"), a) }},
 		{nil, func(a, b types.MalType) types.MalType { return Call("and", a, b, a) }},
 		{nil, func(a, b types.MalType) types.MalType { return Call("or", a, b) }},
@@ -166,6 +169,17 @@ func runC12(tier string, seed uint64, rep *Report) {
 		{nil, func(a, b types.MalType) types.MalType { return Call("->>", a, Call("list", b)) }},
 	}
 	operands := []types.MalType{Call("trace!", 1), Call("trace!", nil), Call("trace!", false), Call("trace!", Q(S("sym"))), 7, Call("do", Call("trace!", 2), Call("trace!", 3))}
+	for _, m := range macs {
+		if m.def == nil {
+			continue
+		}
+		name := m.def.(types.List).Val[1]
+		prog := Call("do", macs[0].def, m.def, Call("macro?", name))
+		idx, line, _ := addProgram(rep, prog, true, "macro-is-macro")
+		if line != val(true) {
+			rep.Violate(idx, "a value installed as a macro (defmacro, or a macro value given metadata and bound with def) is not a macro: its calls would evaluate their operands first", Show(prog))
+		}
+	}
 	for mi, m := range macs {
 		for _, a := range operands {
 			for _, b := range operands {
